@@ -46,7 +46,7 @@ func (k *KV) CopyFrom(v interface{}) bool {
 
 // Op is one trie operation of a call.
 type Op struct {
-	Op string `json:"op"` // put | get | del | fund | pay | fail
+	Op string `json:"op"` // put | get | del | fund | pay | move | fail
 	K  string `json:"k,omitempty"`
 	V  string `json:"v,omitempty"`
 }
@@ -86,6 +86,15 @@ func (contract) Execute(t *transaction.Transaction, fn string, input []byte, b c
 			}
 		case "fund": // move the transaction's value from the sender into the contract's wallet (as staking contracts do)
 			if err := b.AddTransfer(state.NewTransfer(t.ClientID, Address, t.Value)); err != nil {
+				return "", err
+			}
+		case "move": // queue a transfer K = "from>to" of V tokens (contracts may move tokens between arbitrary accounts)
+			ft := strings.SplitN(o.K, ">", 2)
+			amt, err := strconv.ParseUint(o.V, 10, 64)
+			if err != nil || len(ft) != 2 {
+				return "", fmt.Errorf("kvsc: bad move %q %q", o.K, o.V)
+			}
+			if err := b.AddTransfer(state.NewTransfer(ft[0], ft[1], currency.Coin(amt))); err != nil {
 				return "", err
 			}
 		case "pay": // transfer V tokens from the contract's wallet to account K (queued like any contract transfer)
